@@ -1,6 +1,6 @@
 """C19 - lookups are logarithmic; a correct hint makes insertion search-free."""
 from .. import matrix
-from ..rules import sets
+from ..rules import sets, hint
 
 
 def run(tier, runner):
@@ -9,18 +9,20 @@ def run(tier, runner):
     r_s = sets.search(progs)
     r_h = sets.hint_k(progs)
     r_l = sets.lin_small(progs)
+    r12, r_hf = hint.hint_ord(progs)
+    r_hf.require(30, 'scenarios with a correct hint')
     r_s.require(10, 'FlatSet lookup members')
     r_h.require(1, 'insert_hint')
     r_l.require(5, 'inline-state lookups of SmallSet')
     return {
-        'results': [r_s, r_h, r_l],
+        'results': [r_s, r_h, r_hf, r_l],
         'explanation': 'SEARCH: each FlatSet lookup and position search (find, contains, count, lower/upper_bound, equal_range, transparent variants, mfind, '
                        'insert_val, erase(key), extract(key)) performs, on every path through it and its amc callees, exactly one std binary search, at most 2 '
                        'further direct comparator calls, no loop and no linear algorithm that receives the comparator; with the standard\'s bound for the '
                        'search algorithms (<= ceil(log2(n+1))+1 comparisons) this gives <= 2*ceil(log2(n+1))+4 for every n.  HINT-K: insert_hint is '
-                       'loop-free and makes at most 4 comparator calls on every path that reaches neither a search nor the un-hinted insert.  LIN-SMALL: the '
+                       'loop-free and makes at most 4 comparator calls on every path that reaches neither a search nor the un-hinted insert.  HINT-FREE: abstract interpretation of insert_hint over the finite domain of orderings (see C12): in every scenario in which the hint is correct (lower_bound <= hint <= upper_bound, present or absent value, at begin / middle / end) the path taken performs no search and at most 4 comparator calls.  LIN-SMALL: the '
                        'inline-state lookup of SmallSet is one linear scan whose predicate makes at most 2 comparator calls per element: <= 2N+2.',
-        'assumptions': ['that every correct hint selects a search-free path is value-dependent and not decided',
+        'assumptions': [
                         'the complexity clauses of std::lower_bound / upper_bound are trusted'],
         'trusted': ['ISO C++ complexity requirements of the binary-search algorithms', 'the amcsa plugin export'],
     }
